@@ -357,6 +357,8 @@ def search_model(ctx, rng, budget):
         meth = ['nearest', 'linear'][rng.integers(2)]
         sin = bool(rng.integers(2))
         W = None if rng.random() < 0.35 else rng.uniform(0.2, 3.0, (h, w))
+        if W is not None and rng.random() < 0.4:        # 'any weights': the overall scale of the weights is arbitrary
+            W = W * float([1e-6, 1e-9, 2.0**-40, 1e6][rng.integers(4)])
         nb = int(np.hypot(h, w)) + 3
         if meth == 'nearest':
             coef = [rng.normal(size=nb) for _ in orders]
